@@ -217,30 +217,47 @@ def stmtP : P Stmt := fun ts =>
         | some (.arr _, _) => none
         | some (v, r) => some (⟨parts, v⟩, r)
 
-/-- the element that carries the statements -/
+/-- the element(s) that carry the statements -/
 structure Elem where
   kind : String
   optsIdx : Nat       -- position in Schema.optIdx
   target : Nat
   fc : Option FieldCtx
+  /-- number of elements that share the one options clause (ranges of one `extensions` statement);
+      each of them is interpreted on its own, from the same statements -/
+  count : Nat := 1
 
 def parseElem (t : String) : Option Elem :=
   match t.splitOn ":" with
-  | ["file"] => some ⟨"file", 0, 1, none⟩
-  | ["message"] => some ⟨"message", 1, 3, none⟩
-  | ["oneof"] => some ⟨"oneof", 3, 5, none⟩
-  | ["extrange"] => some ⟨"extrange", 4, 2, none⟩
-  | ["enum"] => some ⟨"enum", 5, 6, none⟩
-  | ["enumvalue"] => some ⟨"enumvalue", 6, 7, none⟩
-  | ["service"] => some ⟨"service", 7, 8, none⟩
-  | ["method"] => some ⟨"method", 8, 9, none⟩
+  | ["file"] => some ⟨"file", 0, 1, none, 1⟩
+  | ["message"] => some ⟨"message", 1, 3, none, 1⟩
+  | ["groupmsg"] => some ⟨"groupmsg", 1, 3, none, 1⟩
+  | ["nmessage"] => some ⟨"nmessage", 1, 3, none, 1⟩
+  | ["oneof"] => some ⟨"oneof", 3, 5, none, 1⟩
+  | ["extrange"] => some ⟨"extrange", 4, 2, none, 1⟩
+  | ["extrange", c] =>
+    match c.toNat? with
+    | some k => if 2 ≤ k && k ≤ 4 then some ⟨"extrange", 4, 2, none, k⟩ else none
+    | none => none
+  | ["enum"] => some ⟨"enum", 5, 6, none, 1⟩
+  | ["nenum"] => some ⟨"nenum", 5, 6, none, 1⟩
+  | ["enumvalue"] => some ⟨"enumvalue", 6, 7, none, 1⟩
+  | ["nenumvalue"] => some ⟨"nenumvalue", 6, 7, none, 1⟩
+  | ["service"] => some ⟨"service", 7, 8, none, 1⟩
+  | ["method"] => some ⟨"method", 8, 9, none, 1⟩
+  -- a map field is a repeated message field, a group field has TYPE_GROUP already before linking
+  | ["mapfield"] => some ⟨"mapfield", 2, 4, some ⟨.msg 0, true, false, "f"⟩, 1⟩
+  | ["groupfield"] => some ⟨"groupfield", 2, 4, some ⟨.group 0, false, false, "g"⟩, 1⟩
   | [e, k, l] =>
-    if e != "field" && e != "extfield" then none else
+    if e != "field" && e != "extfield" && e != "oneoffield" && e != "nfield" && e != "nextfield" then none else
     match parseKind k, parseCard l with
     | some kind, some card =>
+      if e == "oneoffield" && card != .opt then none else
       match kind with
       | .group _ => none
-      | _ => some ⟨e, 2, 4, some ⟨kind, card == .rep, e == "extfield", if e == "field" then "f" else "ux"⟩⟩
+      | _ =>
+        let isExt := e == "extfield" || e == "nextfield"
+        some ⟨e, 2, 4, some ⟨kind, card == .rep, isExt, if isExt then "ux" else "f"⟩, 1⟩
     | _, _ => none
   | _ => none
 
@@ -334,7 +351,8 @@ def showR (e : Elem) (r : ElemR) : String :=
   | some er => "err " ++ er.toString
   | none =>
     let rest := showRest r.remain []
-    let base := "ok " ++ dumpPM r.opts ++ " r=" ++ (if rest.isEmpty then "-" else ",".intercalate rest)
+    let base := "ok " ++ dumpPM r.opts ++ " r=" ++ (if rest.isEmpty then "-" else ",".intercalate rest) ++
+      (if e.count > 1 then " n=" ++ toString e.count else "")
     match e.fc with
     | none => base
     | some fc =>
